@@ -37,6 +37,7 @@ def gen(ctx):
         return None
     ctx.write_gen("RaiseSites.v", text)
     STATE["table"] = t
+    ctx.extra["exempt_raise_sites"] = t.get("exempt", [])
     return t
 
 
@@ -278,6 +279,9 @@ def run(ctx):
     refs = G.reference_scripts()      # deterministic: every reference form x data position x framer kind
     scripts += refs
     kinds += ["reference"] * len(refs)
+    rears = G.rear_scripts()                    # deterministic: rear / raze x schedule kinds x frame forms
+    scripts += rears
+    kinds += ["rear"] * len(rears)
     flds = G.field_scripts(ctx.thorough)        # deterministic: field clauses differing in name / length
     scripts += flds
     kinds += ["fields"] * len(flds)
@@ -301,7 +305,9 @@ def run(ctx):
     for s, kd, r in zip(scripts, kinds, res):
         cls, key = classify(r)
         early = r[0] == "ParseError" and ("index = 1." in r[1] or "No current" in r[1])
-        if kd == "role":
+        if kd == "rear":
+            s_show = [ln.strip() for ln in s.split("\n")[4:6] if ln.startswith("    ")]
+        elif kd == "role":
             s_show = [ln.strip() for ln in s.split("\n")][5]
         elif kd == "fields":
             s_show = [ln.strip() for ln in s.split("\n")[3:] if ln.strip() and not ln.startswith("framer")
@@ -358,8 +364,40 @@ def shrink(ctx, f):
     return f
 
 
+def bad_raise_sites(ctx):
+    """raise sites whose call does not fit the exception constructor, confirmed by really calling it"""
+    t = STATE.get("table")
+    out = []
+    if not t:
+        return out
+    import importlib
+    excepting = importlib.import_module("ioflo.base.excepting")
+    for r in t["raises"]:
+        params = t["ctors"][r["cls"]]
+        ok = r["npos"] <= len(params) and all(k in params and params.index(k) >= r["npos"] for k in r["kws"]) \
+            and len(set(r["kws"])) == len(r["kws"])
+        if ok or any(e["guard"] and e["file"] == r["file"] and e["line"] == r["line"] for e in t.get("exempt", [])):
+            continue
+        try:
+            getattr(excepting, r["cls"])(*([None] * r["npos"]), **{k: None for k in r["kws"]})
+            observed = "constructor accepted the call"
+        except TypeError as ex:
+            observed = "TypeError: %s" % ex
+        out.append({"key": "raise-signature:%s:%s:%s" % (os.path.basename(r["file"]), r["func"], r["cls"]),
+                    "site": "%s:%d (%s)" % (r["file"], r["line"], r["func"]),
+                    "call": "excepting.%s(<%d positional>, %s)" % (r["cls"], r["npos"], ", ".join(k + "=..." for k in r["kws"])),
+                    "constructor": "%s.__init__(self, %s)" % (r["cls"], ", ".join(params)),
+                    "observed": observed,
+                    "expected": "reaching this raise statement reports the script error it was written for",
+                    "contradicts": "C14.Props.all_raise_sites_match_constructor"})
+    return out
+
+
 def search(ctx):
     if not FOUND:
+        for b in bad_raise_sites(ctx):
+            if not ctx.known_finding(b["key"]):
+                return b
         return None
     # prefer the shortest script per key; report the first key, list the others
     best = {}
